@@ -213,6 +213,8 @@ func c09GenSet(r *Rng, id int) c09Set {
 			// elements whose evaluation writes attributes; the condition and the values differ between calls
 			// that bring their own data and calls on the shared data
 			toggleElems("counter > 7", "user.name", "user.name", "items"),
+			// equality and arithmetic on values whose Go type differs between requests
+			`<p v-if="counter == 7" :class="{eight: counter == 8, str: note == 'from front-matter'}">seven</p><p v-else-if="counter != 9">not-nine</p><p v-else>nine</p><i v-show="note == ''" :data-n="counter % 3 == 0">n</i><u>{{ counter == 7 ? 'is7' : 'not7' }} {{ counter * 2 }} {{ note == 7 }}</u>`,
 		}
 		for i := range feats {
 			if r.Intn(3) != 0 {
@@ -309,7 +311,21 @@ func (e *c09Engine) do(c c09Call, shared map[string]any) (res c09Res) {
 	data := shared
 	if c.Own {
 		data = c09SharedData()
-		data["counter"] = c.Idx
+		// the same expressions meet a different Go type from one request to the next (JSON-decoded numbers are
+		// float64, database ids int64): a request must evaluate them with its own values
+		switch c.Idx % 4 {
+		case 0:
+			data["counter"] = c.Idx
+		case 1:
+			data["counter"] = int64(c.Idx)
+		case 2:
+			data["counter"] = float64(c.Idx)
+		default:
+			data["counter"] = uint16(c.Idx % 60000)
+		}
+		if c.Idx%5 == 0 {
+			data["note"] = 7 // elsewhere a string
+		}
 		data["user"].(map[string]any)["name"] = fmt.Sprintf("U%d", c.Idx)
 	}
 	if c.Kind == "New.Fill.RenderString" {
